@@ -13,8 +13,16 @@ import (
 
 var idents = func() parser2.Identifiers[int] {
 	var ids parser2.Identifiers[int]
-	return ids.Add("a").Add("b").Add("m")
+	ids = ids.Add("a").Add("b").Add("m")
+	// quoted identifiers spelled like operators ('+') are operands: known names, so that only the grammar decides
+	for _, s := range quotedNames {
+		ids = ids.Add(s)
+	}
+	return ids
 }()
+
+// quotedNames: the operator spellings that occur as quoted identifiers in the malformed space.
+var quotedNames = []string{"+", "-", "*", "<", "&", "~"}
 
 func buildParser(t *table) *parser2.Parser[int] {
 	p := parser2.NewParser[int]()
@@ -47,6 +55,16 @@ func safeParse(p *parser2.Parser[int], src string) (ast parser2.AST, err error, 
 	return
 }
 
+// quoteName: a name spelled like an operator was written as a quoted identifier.
+func quoteName(name string) string {
+	for _, q := range quotedNames {
+		if name == q {
+			return "'" + q + "'"
+		}
+	}
+	return name
+}
+
 func convList(l []parser2.AST) []*gx.Node {
 	out := make([]*gx.Node, len(l))
 	for i, a := range l {
@@ -67,9 +85,9 @@ func conv(a parser2.AST) *gx.Node {
 	case *parser2.ListAccess:
 		return &gx.Node{K: gx.Index, A: conv(n.List), B: conv(n.Index)}
 	case *parser2.MapAccess:
-		return &gx.Node{K: gx.Member, A: conv(n.MapValue), S: n.Key}
+		return &gx.Node{K: gx.Member, A: conv(n.MapValue), S: quoteName(n.Key)}
 	case *parser2.MethodCall:
-		return &gx.Node{K: gx.Method, A: conv(n.Value), S: n.Name, Args: convList(n.Args)}
+		return &gx.Node{K: gx.Method, A: conv(n.Value), S: quoteName(n.Name), Args: convList(n.Args)}
 	case *parser2.If:
 		return &gx.Node{K: gx.If, A: conv(n.Cond), B: conv(n.Then), C: conv(n.Else)}
 	case *parser2.TryCatch:
@@ -83,7 +101,7 @@ func conv(a parser2.AST) *gx.Node {
 	case *parser2.Const[int]:
 		return gx.L(strconv.Itoa(n.Value))
 	case *parser2.Ident:
-		return gx.L(n.Name)
+		return gx.L(quoteName(n.Name))
 	case nil:
 		return gx.L("<nil>")
 	}
